@@ -4,7 +4,8 @@
 Automatic mutation sweep over one source file of /repo (scratch copies under /tmp only): every mutant that the pinned test suite does
 not notice ("survivor") is run against the given checks; the report lists survivors no check reports.  Those are either equivalent
 mutants or gaps in the checks -- to be judged by hand.  Mutation operators: comparison flips, and/or, not-removal, small integer
-constants +1, True/False, +/-; branch conditions forced.  Docstrings, logging calls and raise messages are left alone."""
+constants +1, True/False, +/-; branch conditions forced; simple statements deleted, `return x` -> `return None`
+(--only-deletions runs just these).  Docstrings, logging calls and raise messages are left alone."""
 import ast
 import copy
 import json
@@ -93,6 +94,12 @@ def mutants_of(src):
                 muts.append(('binop %s' % type(n.op).__name__, ('binop',)))
             for label, m in muts:
                 res.append((st.lineno, st.end_lineno, idx, label, m))
+        if isinstance(st, (ast.Expr, ast.Assign, ast.AugAssign)) and not (isinstance(st, ast.Expr) and isinstance(st.value, (ast.Yield, ast.YieldFrom))):
+            res.append((st.lineno, st.end_lineno, -2, 'statement deleted', ('delete',)))
+        if isinstance(st, ast.Return) and st.value is not None and not (isinstance(st.value, ast.Constant) and st.value.value is None):
+            res.append((st.lineno, st.end_lineno, -2, 'return None', ('retnone',)))
+        if isinstance(st, ast.Expr) and isinstance(st.value, ast.Yield):
+            res.append((st.lineno, st.end_lineno, -2, 'yield deleted', ('delete',)))
         if isinstance(st, (ast.If, ast.While)):
             res.append((st.lineno, st.end_lineno, -1, 'condition forced False', ('force', False)))
             if isinstance(st, ast.If):
@@ -109,6 +116,16 @@ def apply(src, lineno, end_lineno, idx, m):
             break
     if target is None:
         return None
+    if m[0] in ('delete', 'retnone'):
+        lines = src.split('\n')
+        indent = len(lines[lineno - 1]) - len(lines[lineno - 1].lstrip())
+        out = lines[:lineno - 1] + [' ' * indent + ('pass' if m[0] == 'delete' else 'return None')] + lines[end_lineno:]
+        text = '\n'.join(out)
+        try:
+            ast.parse(text)
+        except SyntaxError:
+            return None
+        return text
     if m[0] == 'force':
         target.test = ast.Constant(m[1])
     else:
@@ -209,6 +226,8 @@ def main():
     _, _, muts = mutants_of(src)
     if '--lines' in args:
         muts = [m for m in muts if lo <= m[0] <= hi]
+    if '--only-deletions' in args:
+        muts = [m for m in muts if m[4][0] in ('delete', 'retnone')]
     if mx:
         step = max(1, len(muts) // mx)
         muts = muts[::step][:mx]
